@@ -125,6 +125,7 @@ def _line_start_at(orig, k):
     return True
 
 
+NEVER_ASSUMED = lambda fn_name: False      # clauses proved of a function that no caller needs
 NOT_IN_DOCUMENT_PARSER = lambda fn_name: not fn_name.startswith(P_DP + ':')      # `inline=`: see element_level_only
 
 
@@ -613,7 +614,8 @@ def defined_in_syntax_only(f):
     syntax module's functions computing these predicates.  (Natively it is always the definition.)"""
 
     def outside_syntax(interp):
-        return not (interp.fn_name.startswith(P_SYN + ':') or interp.fn_name.startswith('contracts.C07_document:syntax_'))
+        return not (interp.fn_name.startswith(P_SYN + ':')
+                    or interp.fn_name.endswith(':_Impl.current_line_is_comment_or_empty'))      # (uses the patterns)
 
     def make(interp, args, kwargs):
         ts = [_str_term(interp, a) for a in args]
@@ -842,8 +844,6 @@ def _havoc_dict_of_lists(interp, d):
     d.havoc(interp, 'post')
 
 
-NEVER_ASSUMED = lambda fn_name: False
-
 M.contract(P_DP + ':_add_raw_doc', params=dict(added_to=RAW_DOC3, to_add=RAW_DOC3), event='add-raw-doc',
            old=lambda added_to, to_add: (snapshot_lists(added_to), snapshot_lists(to_add)),
            modifies={'added_to': HavocBy(_havoc_dict_of_lists)},
@@ -1035,6 +1035,14 @@ M.contract(P_DP + ':_Impl.set_current_section', inline=True,
 from pyvc.values import SChoice
 from pyvc.mlist import MList
 from exactly_lib.section_document.exceptions import FileSourceError, FileAccessError
+from exactly_lib.section_document.source_location import SourceLocationInfo, SourceLocationPath, SourceLocation
+
+
+SOURCE_LOCATION_INFO = Inst(SourceLocationInfo, _abs_path_of_dir_containing_root_file_path=Any_,
+                            _source_location_path=Inst(SourceLocationPath, _tuple=[
+                                Inst(SourceLocation, _tuple=[LINE_SEQUENCE, Any_]), SOURCE_LOCATION_CHAIN]))
+FILE_SOURCE_ERROR = Inst(FileSourceError, _message=Str, _location_path=Any_, _maybe_section_name=Any_,
+                         _source_location_info=SOURCE_LOCATION_INFO, _source=LINE_SEQUENCE)
 
 
 def havoc_impl(interp, impl):
@@ -1078,6 +1086,13 @@ def error_is_about_current_line(exc, self):
 P_SWITCH = P_DP + ':_Impl.switch_section_according_to_last_section_line_and_consume_section_lines'
 
 
+def _rest_of_impl(self):
+    """the fields of _Impl that are not part of the parsing state (identities)"""
+    return (id(self.configuration), id(self._current_file_location), id(self._file_reference_relativity_root_dir),
+            id(self._document_source), id(self._section_name_2_element_list), id(self._element_constructor),
+            id(self.visited_paths))
+
+
 def consumed_some_line(source, old_number):
     """the source has left the line it was on (it then had a current line, with number old_number)"""
     return (not has_line(source)) or source._current_line_number > old_number
@@ -1090,8 +1105,6 @@ def _switch_inv(self, orig, old):
     if off_of(s, orig) < old[1]:
         return False
     if has_line(s):
-        if s._column_index != 0:
-            return False
         if s._current_line_number < old[3]:
             return False
     if not lists_grown_by_new_empty_sections_only(self, old[0]):
@@ -1113,28 +1126,27 @@ def _same_section(self, old_section):
         and self._elements_for_current_section is old_section[2]
 
 
-M.contract(P_SWITCH,
+M.contract(P_SWITCH, event='switch-section',
            params=dict(self=IMPL), ghosts=dict(orig=Str),
-           requires=lambda self, orig: impl_ok(self, orig) and self._current_line is not None
-           and self._document_source._column_index == 0,
+           requires=lambda self, orig: impl_ok(self, orig) and self._current_line is not None,
            old=lambda self, orig: (lists_snapshot(self), off_of(self._document_source, orig),
                                    (self._name_of_current_section, self._parser_for_current_section,
                                     self._elements_for_current_section),
-                                   self._document_source._current_line_number),
-           modifies={'self': dict(_current_line=Any_, _name_of_current_section=Any_,
-                                  _parser_for_current_section=Any_, _elements_for_current_section=Any_),
-                     'self._document_source': PS_FRAME},
-           raises={FileSourceError: {'ensures': lambda self, orig, old, exc:
+                                   self._document_source._current_line_number, _rest_of_impl(self)),
+           # (frame: the parsing state; that the rest of the object is untouched is the clause `rest-of-the-...`)
+           modifies={'self': IMPL_STATE},
+           raises={FileSourceError: {'shape': FILE_SOURCE_ERROR, 'ensures': (lambda self, orig, old, exc:
                    RI(self._document_source, orig) and has_line(self._document_source)
                    and is_header(self._document_source._current_line_text)
                    and error_is_about_current_line(exc, self)
                    and exc.maybe_section_name is None
-                   and lists_grown_by_new_empty_sections_only(self, old[0])}},
+                   and lists_grown_by_new_empty_sections_only(self, old[0]), NEVER_ASSUMED)}},
            ensures={
                'state-well-formed-lists-only-gained-new-empty-sections-current-section-is-that-of-the-last-header':
                    lambda self, orig, old: _switch_inv(self, orig, old),
                'stops-at-end-or-at-a-line-that-is-not-a-header': lambda self:
                self._current_line is None or not is_header(self._current_line.text),
+               'rest-of-the-object-untouched': lambda self, old: _rest_of_impl(self) == old[4],
            }, raises_only=())
 M.loop(P_SWITCH, 0, invariant=lambda self, orig, old: _switch_inv(self, orig, old),
        modifies=dict(IMPL_FRAME, section_line='local', section_name='local', msg='local'))
@@ -1142,7 +1154,6 @@ M.loop(P_SWITCH, 0, invariant=lambda self, orig, old: _switch_inv(self, orig, ol
 
 # ---- one element: parsed by the parser of the current section, built with the location of the current file
 
-from exactly_lib.section_document.source_location import SourceLocationInfo, SourceLocationPath, SourceLocation
 
 P_IMPL = P_DP + ':_Impl'
 
@@ -1199,10 +1210,10 @@ M.contract(P_IMPL + '.parse_element_at_current_line_using_current_section_elemen
            old=lambda self, orig: (off_of(self._document_source, orig), lists_snapshot(self),
                                    snap(self._document_source)),
            modifies={'self._document_source': PS_FRAME},
-           raises={FileSourceError: {'ensures': lambda self, orig, old, exc:
+           raises={FileSourceError: {'shape': FILE_SOURCE_ERROR, 'ensures': (lambda self, orig, old, exc:
                    # the parser did not recognise the line: nothing consumed, the error is about the current line
                    unchanged(self._document_source, old[2]) and error_is_about_current_line(exc, self)
-                   and exc.maybe_section_name is self._name_of_current_section},
+                   and exc.maybe_section_name is self._name_of_current_section, NEVER_ASSUMED)},
                    PARSER_EXCEPTION: {'ensures': lambda self, orig, old:
                    RI(self._document_source, orig) and off_of(self._document_source, orig) >= old[0]}},
            ensures={
@@ -1429,13 +1440,14 @@ M.contract(P_READ,
            params=dict(self=IMPL), ghosts=dict(orig=Str),
            requires=lambda self, orig: impl_ok(self, orig) and in_section(self),
            old=lambda self, orig: (lists_snapshot(self), _section_triple(self), off_of(self._document_source, orig)),
-           modifies={'self': dict(_current_line=Any_), 'self._document_source': PS_FRAME,
+           modifies={'self': dict(_current_line=Opt(Inst(Line, _tuple=[Int, Str]))),
+                     'self._document_source': PS_FRAME,
                      'self._section_name_2_element_list': HavocBy(_havoc_dict_of_lists)},
-           raises={FileSourceError: {'ensures': lambda self, exc, trace:
+           raises={FileSourceError: {'shape': FILE_SOURCE_ERROR, 'ensures': (lambda self, exc, trace:
                    # from an included file, or: about lines of this file, naming the current section
                    any(e[0] == 'include-files' for e in trace)
                    or (located_in_current_file(exc.source_location_info, self, exc.source)
-                       and exc.maybe_section_name is self._name_of_current_section)}},
+                       and exc.maybe_section_name is self._name_of_current_section), NEVER_ASSUMED)}},
            may_raise=(FileAccessError, PARSER_EXCEPTION),
            ensures={
                'well-formed-same-section-lists-only-extended': lambda self, orig, old: _read_inv(self, orig, old),
@@ -1448,3 +1460,95 @@ M.loop(P_READ, 0,
        step=lambda self, orig, pre, parsed_element, ghost, trace:
        _one_element_step(self, orig, pre, parsed_element, ghost, trace),
        modifies=dict(IMPL_FRAME, parsed_element='local', ex='local'))
+
+
+# ---- the rest of a document; the beginning of a document
+
+P_REST = P_IMPL + '.read_rest_of_document_from_inside_section_or_at_eof'
+
+
+def _rest_inv(self, orig, old):
+    """old = (lists, offset, rest of the object)"""
+    return impl_ok(self, orig) and in_section(self) and lists_extended(self, old[0]) \
+        and off_of(self._document_source, orig) >= old[1] and _rest_of_impl(self) == old[2]
+
+
+M.contract(P_REST, event=('read-rest', lambda self: self._name_of_current_section),
+           params=dict(self=IMPL), ghosts=dict(orig=Str),
+           requires=lambda self, orig: impl_ok(self, orig) and in_section(self),
+           old=lambda self, orig: (lists_snapshot(self), off_of(self._document_source, orig), _rest_of_impl(self)),
+           modifies={'self': IMPL_STATE},
+           may_raise=(FileSourceError, FileAccessError, PARSER_EXCEPTION),
+           ensures={
+               'well-formed-lists-only-extended': lambda self, orig, old: _rest_inv(self, orig, old),
+               'the-whole-document-is-read': lambda self: self._current_line is None,
+           })
+M.loop(P_REST, 0, invariant=lambda self, orig, old: _rest_inv(self, orig, old), modifies=dict(IMPL_FRAME))
+
+M.contract(P_IMPL + '.current_line_is_comment_or_empty', params=dict(self=IMPL), returns=Opt(Any_),
+           requires=lambda self: self._current_line is not None,
+           ensures={'blank-or-comment (a match object or None)': lambda self, result:
+                    iff(result is not None, is_blank(self._current_line.text) or is_comment(self._current_line.text))},
+           raises_only=())
+
+P_SKIP = P_IMPL + '.skip_standard_comment_and_empty_lines'
+
+
+def _skip_inv(self, orig, old):
+    return impl_ok(self, orig) and _same_section(self, old[0]) and other_lists_unchanged(self, old[1]) \
+        and off_of(self._document_source, orig) >= old[2] and _rest_of_impl(self) == old[3]
+
+
+M.contract(P_SKIP, params=dict(self=IMPL), ghosts=dict(orig=Str),
+           requires=lambda self, orig: impl_ok(self, orig),
+           old=lambda self, orig: (_section_triple(self), lists_snapshot(self), off_of(self._document_source, orig),
+                                   _rest_of_impl(self)),
+           modifies={'self': IMPL_STATE},
+           ensures={
+               'only-the-source-moved': lambda self, orig, old: _skip_inv(self, orig, old),
+               'stops-at-end-or-at-a-line-that-is-neither-blank-nor-comment': lambda self:
+               self._current_line is None
+               or not (is_blank(self._current_line.text) or is_comment(self._current_line.text)),
+           }, raises_only=())
+M.loop(P_SKIP, 0, invariant=lambda self, orig, old: _skip_inv(self, orig, old), modifies=dict(IMPL_FRAME))
+
+
+def initial(self):
+    """the state _Impl.__init__ leaves: outside any section, no lists yet"""
+    d = self._section_name_2_element_list
+    return self._name_of_current_section is None and self._parser_for_current_section is None \
+        and conj([k not in d for k in SECTION_NAMES])
+
+
+def _calls(trace):
+    return [(e[0], e[2] if len(e) > 2 else None) for e in trace if e[0] in ('switch-section', 'read-rest')]
+
+
+M.contract(P_IMPL + '.apply', params=dict(self=IMPL), ghosts=dict(orig=Str),
+           requires=lambda self, orig: impl_ok(self, orig) and initial(self),
+           old=lambda self: (self._current_line is None,
+                             self._current_line is not None and is_header(self._current_line.text),
+                             self.configuration.default_section_name, _rest_of_impl(self)),
+           modifies={'self': IMPL_STATE},
+           returns=RAW_DOC,
+           raises={FileSourceError: {'shape': FILE_SOURCE_ERROR, 'ensures': (lambda self, orig, old, exc, trace:
+                   # an error from further down; or: no header first, no default section, and after the comments
+                   # and blank lines there is something that is not a header
+                   _calls(trace) != []
+                   or (old[2] is None and not old[1] and has_line(self._document_source)
+                       and not is_header(self._document_source._current_line_text)
+                       and error_is_about_current_line(exc, self) and exc.maybe_section_name is None), NEVER_ASSUMED)}},
+           may_raise=(FileAccessError, PARSER_EXCEPTION),
+           ensures={
+               'an-empty-document-has-no-sections': lambda result, old: (not old[0]) or len(result) == 0,
+               'otherwise-the-lists-built-by-reading-the-whole-document': lambda self, result, old:
+               old[0] or (result is self._section_name_2_element_list
+                          and (self._current_line is None)),
+               'header-first: switch to it; else the default section; else skip to the first header':
+                   lambda self, old, trace:
+                   old[0]
+                   or ([c[0] for c in _calls(trace)] == ['switch-section', 'read-rest']
+                       if old[1] else
+                       (_calls(trace) == [('read-rest', old[2])] if old[2] is not None else
+                        [c[0] for c in _calls(trace)] in ([], ['switch-section', 'read-rest']))),
+           })
